@@ -389,6 +389,17 @@ def main(out_path):
     L.append(f"Definition EXCLUDE_KEEPS_WILDCARDS : bool := {'true' if keeps else 'false'}.")
     L.append("")
 
+    # --- compute_suggest: does de-duplication merge the criteria of the dropped item?
+    cs = fn_body(resolver, "compute_suggest")
+    m = re.search(r"suggestions\.dedup_by\(", cs)
+    if not m:
+        raise TranslateError("compute_suggest no longer de-duplicates suggestions with dedup_by")
+    op = m.end() - 1
+    cp = match_brace(cs, op, "(", ")")
+    merges = bool(re.search(r"b\.suggested_criteria\.unioned_with\(\s*&a\.suggested_criteria\s*\)", cs[op:cp]))
+    L.append(f"Definition SUGGEST_DEDUP_MERGES_CRITERIA : bool := {'true' if merges else 'false'}.")
+    L.append("")
+
     # --- storage constants
     m = re.search(r"let\s+max_end_date\s*=\s*today\s*\+\s*chrono::Months::new\((\d+)\)", storage)
     if not m:
